@@ -322,6 +322,7 @@ func apiMode(r *rng.R, fs *files) {
 		}
 		// --- ast
 		astPaths(s, valid)
+		preorderPaths(fs, s, valid, modelTied)
 	}
 }
 
@@ -531,5 +532,111 @@ func encMode(r *rng.R, fs *files) {
 		cmpMarshal("marshal/interface(json.Number)", []interface{}{json.Number(l.s)})
 		cmpMarshal("marshal/map[string]json.Number", map[string]json.Number{"k": json.Number(l.s)})
 		cmpMarshal("marshal/,string/json.Number", sNum{json.Number(l.s)})
+	}
+}
+
+// ---------------------------------------------------------------- ast.Preorder (the only ast path that converts numbers natively)
+
+type numVisitor struct {
+	got []string
+}
+
+func (v *numVisitor) OnNull() error                  { return nil }
+func (v *numVisitor) OnBool(bool) error              { return nil }
+func (v *numVisitor) OnString(string) error          { return nil }
+func (v *numVisitor) OnObjectBegin(int) error        { return nil }
+func (v *numVisitor) OnObjectKey(string) error       { return nil }
+func (v *numVisitor) OnObjectEnd() error             { return nil }
+func (v *numVisitor) OnArrayBegin(int) error         { return nil }
+func (v *numVisitor) OnArrayEnd() error              { return nil }
+func (v *numVisitor) OnInt64(i int64, n json.Number) error {
+	v.got = append(v.got, fmt.Sprintf("int64:%d num:%s", i, string(n)))
+	return nil
+}
+func (v *numVisitor) OnFloat64(f float64, n json.Number) error {
+	v.got = append(v.got, fmt.Sprintf("f64:%016x num:%s", math.Float64bits(f), string(n)))
+	return nil
+}
+
+var longPad = strings.Repeat("x", 1000)
+
+// the literal at the very end of the document and followed by long padding: the native conversion must not depend
+// on what follows (the big-decimal fallback gets its digit buffer from the Go caller)
+func preorderPaths(fs *files, s string, valid bool, modelTied bool) {
+	if !valid {
+		return
+	}
+	want := "err"
+	if iv, err := strconv.ParseInt(s, 10, 64); err == nil && isIntLit(s) {
+		want = fmt.Sprintf("int64:%d num:%s", iv, s)
+	} else if f, err := strconv.ParseFloat(s, 64); err == nil {
+		want = fmt.Sprintf("f64:%016x num:%s", math.Float64bits(f), s)
+	}
+	docs := []struct{ name, doc string }{
+		{"end/bare", s},
+		{"end/array", "[" + s + "]"},
+		{"end/object", `{"k":` + s + `}`},
+		{"padded/array", "[" + s + `,"` + longPad + `"]`},
+		{"padded/object", `{"k":` + s + `,"p":"` + longPad + `"}`},
+		{"padded/space", s + strings.Repeat(" ", 1000)},
+	}
+	first := ""
+	for i, d := range docs {
+		var v numVisitor
+		err := ast.Preorder(d.doc, &v, nil)
+		got := "err"
+		if err == nil && len(v.got) == 1 {
+			got = v.got[0]
+		} else if err == nil {
+			got = fmt.Sprintf("%d callbacks", len(v.got))
+		}
+		rep.Evaluations++
+		if i == 0 {
+			first = got
+		}
+		if got != want {
+			failc("ast/Preorder/"+d.name, d.doc, got, want, "")
+		} else if got != first {
+			fail("ast/Preorder/placement-dependent", d.doc, got, first)
+		}
+		// the verified specification value (nearest_bits of the exact rational), for float results
+		if modelTied && (i == 1 || i == 3) && !strings.ContainsAny(s, " \t\r\n") {
+			switch {
+			case strings.HasPrefix(got, "f64:"):
+				u, _ := strconv.ParseUint(got[4:20], 16, 64)
+				fs.emit([]string{"nb64", out.HexS(s)}, "ok "+strconv.FormatUint(u, 10))
+			case got == "err" && want == "err":
+				if f, _ := strconv.ParseFloat(s, 64); math.IsInf(f, 0) {
+					fs.emit([]string{"nb64", out.HexS(s)}, "inf")
+				}
+			}
+		}
+	}
+	// OnlyNumber: no conversion, the text must be preserved
+	{
+		var v numVisitor
+		err := ast.Preorder("["+s+"]", &v, &ast.VisitorOptions{OnlyNumber: true})
+		rep.Evaluations++
+		if err != nil || len(v.got) != 1 || !strings.HasSuffix(v.got[0], "num:"+s) {
+			fail("ast/Preorder/OnlyNumber", s, fmt.Sprint(err, v.got), "num:"+s)
+		}
+	}
+	// raw nodes
+	for _, doc := range []string{s, s + strings.Repeat(" ", 100)} {
+		n := ast.NewRaw(doc)
+		rep.Evaluations += 2
+		f, ferr := strconv.ParseFloat(s, 64)
+		fw := "err"
+		if ferr == nil {
+			fw = fmt.Sprintf("ok f64:%016x", math.Float64bits(f))
+		}
+		g, e := n.Float64()
+		if r := res(g, e); r != fw {
+			fail("ast/NewRaw.Float64", doc, r, fw)
+		}
+		x, e := n.Interface()
+		if r := res(x, e); r != fw {
+			fail("ast/NewRaw.Interface", doc, r, fw)
+		}
 	}
 }
